@@ -3,8 +3,8 @@ Line protocol for `Model/ContentFns.lean` (strings and styles as in `Drive/Count
   atok ::= (i x<value>) | (s x<value>) | (u x<value>) | attr | comma | other
   link ::= (s x…) | (ui x<fragment>) | ue | attr
   cfn x<function name as written> (atok …)
-      → none | (c x<name> style) | (cs x<name> x<sep> style) | (tc link x<name> none|x<style>)
-        | (tcs link x<name> x<sep> none|x<style>) | (tt link x<mode>)
+      → none | (c x<name> style) | (cs x<name> x<sep> style) | (tc link x<name> x<style>)
+        | (tcs link x<name> x<sep> x<style>) | (tt link x<mode>)
 -/
 import WpModel.Model.Wire
 import WpModel.Model.ContentFns
@@ -28,16 +28,12 @@ def sxLink : Link → Sx
   | .external => .atom "ue"
   | .attr => .atom "attr"
 
-def sxStyleOpt : Option String → Sx
-  | none => .atom "none"
-  | some s => .atom (encodeStr s)
-
 def sxParsed : Parsed → Sx
   | .counter n st => .list [.atom "c", .atom (encodeStr n), sxCName st]
   | .counters n sep st => .list [.atom "cs", .atom (encodeStr n), .atom (encodeStr sep), sxCName st]
-  | .targetCounter l n st => .list [.atom "tc", sxLink l, .atom (encodeStr n), sxStyleOpt st]
+  | .targetCounter l n st => .list [.atom "tc", sxLink l, .atom (encodeStr n), .atom (encodeStr st)]
   | .targetCounters l n sep st =>
-    .list [.atom "tcs", sxLink l, .atom (encodeStr n), .atom (encodeStr sep), sxStyleOpt st]
+    .list [.atom "tcs", sxLink l, .atom (encodeStr n), .atom (encodeStr sep), .atom (encodeStr st)]
   | .targetText l m => .list [.atom "tt", sxLink l, .atom (encodeStr m)]
 
 def handle (cmd : String) (args : List Sx) : Option String :=
